@@ -13,3 +13,18 @@ TEXT["C13"] = {
     "note": "trusts the harness bit-list model (harness/src/bits.rs) and rustc; stream truncation is byte-granular",
     "technique": "reference-model monitor (bit-list codec) over enumerated + random inputs",
 }
+TEXT["C10"] = {
+    "level": ("Random and small-exhaustive exploration of (type, value, production history) triples; each library answer is compared with an abstract-value model "
+              "whose layout is computed from the type definition, so every explored triple is decided. Reach: type grammar with nesting, unequal sums, words to 2^11 bits, "
+              "buffers, ctx8; every bit offset mod 8."),
+    "design_ref": "DESIGN.md section 5, C10",
+    "note": "trusts the harness value model (harness/src/val.rs, ty.rs)",
+    "technique": "reference-model monitor (abstract value layout) over generated types/values/histories",
+}
+TEXT["C11"] = {
+    "level": ("All pairs of eight production histories per generated value, plus exhaustive tiny types: equality, hash and order are compared with model identity. "
+              "A defect found this way was repaired (known_findings.json); the check passes only when the comparison traits ignore padding and stray bits."),
+    "design_ref": "DESIGN.md section 5, C11",
+    "note": "trusts the harness value model and std's DefaultHasher being deterministic",
+    "technique": "reference-model monitor over history pairs incl. Bit Machine output after frame reuse",
+}
